@@ -357,6 +357,18 @@ namespace sim
 				// address. Now, with a domain name, one of those bytes was the
 				// length-prefix, but we still read 3 bytes already.
 				const int additional_bytes = len - 3;
+				if (additional_bytes == 0)
+				{
+					// a 3-character host name: the whole request is already here
+					on_request_domain_name(error_code(), 0);
+					break;
+				}
+				if (additional_bytes < 0)
+				{
+					// shorter names don't fill the 10 bytes read so far; not supported
+					close_connection();
+					return;
+				}
 				asio::async_read(m_client_connection, asio::buffer(&m_out_buffer[10], additional_bytes)
 					, std::bind(&socks_connection::on_request_domain_name
 						, shared_from_this(), std::placeholders::_1, std::placeholders::_2));
